@@ -1,7 +1,10 @@
 """Write seeded/<id>/meta.json from the patch, the confirmation logs and the sweep results."""
 import json, os, re, glob
 ROOT = '/verif/seeded'
-INITIAL_MISS = {'C16-10': 'the chain from the associated location state to the published scope was bounded (C16.published_chain builds every state from scratch); update_from_sdc_location on a state that already carries a location was not under contract',
+INITIAL_MISS = {'C12-10': 'the copy-on-update contract of _update_from_other existed under C01 only; the bounded C12 checks append to members that are non-empty at copy time',
+                'C19-10': 'the contract called _mk_soap_client with the parameters it had; a new optional parameter (default None) kept the old behaviour for that call. The engine now binds parameters added after the baseline to arbitrary values (also catches C19-5 deductively)',
+                'C14-8': 'reported as undecided (exit 2): the new optional parameter was compared with <, which the engine did not model for values of unknown kind',
+                'C16-10': 'the chain from the associated location state to the published scope was bounded (C16.published_chain builds every state from scratch); update_from_sdc_location on a state that already carries a location was not under contract',
                 'C17-10': 'the codec handlers were trusted library calls (round trip of ONE message at a time, bounded); nothing stated that they keep no state between / across concurrent messages',
                 'C20-10': 'the bounded text-filter check fills a storage, queries and compares - it never queries twice with a changed text in between; how n_o_l is obtained was not under contract',
                 'C13-9': 'reads of the request stream were only exercised on in-memory streams (end-of-stream arrives at once) and no contract bounded the size of a read; the same gap hid the genuine Content-Length: -1 defect (fixed in 10256c0)',
